@@ -857,7 +857,7 @@ func TestVerif_C03API_Capabilities(t *testing.T) {
 	r.Assume("create versus update is decided by the backend's existence check (the harness keeps every key in its initial state between probes); root-protected paths of the recording backend have no existence check, so writes there need update; writes to paths ending in '/' are refused by the server before authorisation and are not probed")
 	r.Assume("sys/capabilities-accessor looks the accessor up in the request namespace, so it is only required to answer in the token's own namespace; sys/capabilities-self is required to answer exactly when sys/capabilities reports update (or root) on sys/capabilities-self")
 
-	rounds := kit.N(2, 240)
+	rounds := kit.N(2, 160)
 	shard, nshards := kit.Shard()
 	for round := 0; round < rounds; round++ {
 		if round%nshards != shard {
